@@ -3,7 +3,22 @@ from harness import gen_tables
 
 SIZES = {'TlsSessionIdVector': [1], 'TlsRenegotiatedConnection': [1], 'TlsClientCertificateTypeVector': [1],
          'TlsCipherSuiteVector': [2], 'TlsEllipticCurveVector': [2], 'TlsCompressionMethodVector': [1],
-         'TlsCertificateStatusRequestResponderIdList': [3, 4, 5, 9, 40, 300, 3000], 'SshKexAlgorithmVector': [1, 2, 3, 7, 30]}
+         'TlsCertificateStatusRequestResponderIdList': [3, 4, 5, 9, 40, 300, 3000], 'SshKexAlgorithmVector': [1, 2, 3, 7, 30],
+         'TlsDistinguishedNameVector': [3, 4, 6, 11, 50, 700, 5000]}
+
+
+def fill(rng, cls, total):
+    """Items of unequal sizes whose sizes add up to exactly `total` (as far as the available sizes allow)."""
+    sizes = sorted(SIZES[cls], reverse=True)
+    out = []
+    left = total
+    while left >= sizes[-1]:
+        fit = [s for s in sizes if s <= left]
+        s = fit[0] if rng.random() < 0.7 else rng.choice(fit)
+        out.append('%d:%d' % (rng.randrange(24), s))
+        left -= s
+    rng.shuffle(out)
+    return out
 
 
 def rnd_item(rng, cls):
@@ -35,6 +50,11 @@ def history(rng, cls, max_ops):
     init = rnd_items(rng, cls, target)
     n = target
     ops = []
+    if len(SIZES[cls]) > 1 and d['max'] < 70000 and rng.random() < 0.25:
+        # unequal items that fill the vector to (or just below) its ceiling: whole-vector edits that keep the size must succeed
+        its = fill(rng, cls, d['max'] - rng.choice([0, 0, 1, 2, 7]))
+        init, n = ','.join(its), len(its)
+        ops.append(rng.choice(['rev', 'rev', 'ssl/_/_/' + ','.join(reversed(its)), 'set/0/' + its[0], 'pop/_']))
     for _ in range(rng.randint(1, max_ops)):
         k = rng.choice(['app', 'app', 'ins', 'del', 'set', 'dsl', 'ssl', 'ext', 'iadd', 'pop', 'pop', 'rem', 'rev', 'clr'])
         if k == 'app':
